@@ -353,6 +353,7 @@ func srtRenderDoc(cs []srtCue, o srtRender, r *fw.Rand) []byte {
 		}
 		b.WriteString(o.eol)
 		var stack []srtTag
+		skipRun := false
 		for _, line := range c.Lines {
 			for ri, run := range line {
 				following := ""
@@ -360,9 +361,31 @@ func srtRenderDoc(cs []srtCue, o srtRender, r *fw.Rand) []byte {
 					following += nr.Text
 				}
 				want := srtWanted(run, order)
+				if skipRun {
+					skipRun = false
+					continue
+				}
 				if o.tagMode == 0 {
 					for _, t := range want {
 						b.WriteString(t.open(o))
+					}
+					if nx := ri + 1; o.innerFont && nx < len(line) && run.Color != "" && line[nx].Color != "" && line[nx].Color != run.Color && run.B == line[nx].B && run.I == line[nx].I && run.U == line[nx].U {
+						// round 13: the next run differs in colour only and is written as a coloured element inside this
+						// one; both are closed together behind it. What was read before the inner element keeps its colour
+						inner := srtTag{"font", line[nx].Color}
+						b.WriteString(srtEscape(run.Text, following, o.escAll))
+						b.WriteString(inner.open(o))
+						rest := ""
+						for _, nr := range line[nx+1:] {
+							rest += nr.Text
+						}
+						b.WriteString(srtEscape(line[nx].Text, rest, o.escAll))
+						b.WriteString(inner.close(o))
+						for i := len(want) - 1; i >= 0; i-- {
+							b.WriteString(want[i].close(o))
+						}
+						skipRun = true
+						continue
 					}
 					rs := []rune(run.Text)
 					if cut := len(rs) / 2; o.innerFont && run.Color != "" && cut > 0 && strings.TrimSpace(string(rs[:cut])) != "" && strings.TrimSpace(string(rs[cut:])) != "" {
@@ -725,7 +748,7 @@ func init() {
 	fw.Register(&fw.Property{
 		ID:    "C01",
 		Level: "exploration",
-		Rule: "reader cases: a random ground-truth cue list (0..6 cues, times in [0,100h) at 1 ms biased to carries, 1..4 lines, 1..4 styled runs over a hostile alphabet: BMP/astral/combining/RTL, &, <, >, NBSP, literal &amp;/&lt;, tag look-alikes) rendered 4 ways (EOL LF/CRLF/CR, BOM, index present/absent/garbage, 1..3 blank lines between cues, -1..3 at EOF, ',' or '.', 1..3 fraction digits, 1- or 2-digit hours, 5 arrow spacings, trailing coordinates, tag case, quoted/single-quoted/unquoted colour, tags closed per run / nested across runs and lines / left open at the end of the cue, minimal or full escaping) and read by the library; the projection of the result must equal the model rune by rune (text + bold/italic/underline/colour), to the millisecond. " +
+		Rule: "reader cases: a random ground-truth cue list (0..6 cues, times in [0,100h) at 1 ms biased to carries, 1..4 lines, 1..4 styled runs over a hostile alphabet: BMP/astral/combining/RTL, &, <, >, NBSP, literal &amp;/&lt;, tag look-alikes) rendered 4 ways (EOL LF/CRLF/CR, BOM, index present/absent/garbage, 1..3 blank lines between cues, -1..3 at EOF, ',' or '.', 1..3 fraction digits, 1- or 2-digit hours, 5 arrow spacings, trailing coordinates, tag case, quoted/single-quoted/unquoted colour, tags closed per run (a run that differs from the one before it in colour only may be a coloured element inside that one) / nested across runs and lines / left open at the end of the cue, minimal or full escaping) and read by the library; the projection of the result must equal the model rune by rune (text + bold/italic/underline/colour), to the millisecond. " +
 			"writer cases: the same models built from the public types, written, then decoded by the harness's own SubRip decoder and by the library reader; both must equal the model and the cue numbers must be 1..n. sweep cases: every block of 256 code points (quick: the BMP and one block per other plane; thorough: all 4352 blocks) written as cue text, 32 characters to a cue, and read back unchanged (white space, controls and the markup characters of the format left out). distinct_nontrivial = distinct documents compared.",
 		Assumptions: []string{"no white space at line edges, no white-space-only runs, no blank lines inside a cue, no line terminators or '-->' in text (the property's quantifier)", "a literal '<' is left raw only before a space, a tab or a digit"},
 		Cases:       func(tier string) int64 { return 2*n(tier) + sweepBlocks(tier) },
